@@ -535,8 +535,15 @@ def run_cellprobe(ctx, stats):
     if m:
         ctx.notes['cell_probe'] = {'cases': int(m.group(1)), 'item_sizes': [1, 2, 3, 4, 8, 12, 16, 24]}; stats.steps += int(m.group(1)); return
     mm = re.search(r'MISMATCH (.*)', out)
-    what = mm.group(1) if mm else 'probe failed: ' + out[-600:]
-    ctx.violation('UnsafeSyncCell, item type ' + what[:400], f'## replay: .build/cargo/debug/cellprobe\n## case: {what}\n', no_input=(mm is None))
+    cases = re.findall(r'^CASE (.*)$', out, re.M)
+    if mm: what = mm.group(1)
+    elif cases:
+        # the process aborted (a non-unwinding panic, a signal) inside the cell API for this item type: that is the failing input
+        tail = [l for l in out.strip().split('\n') if l and not l.startswith('CASE ')]
+        pm = re.search(r"panicked at [^\n]*\n([^\n]*)", out)
+        what = cases[-1] + ': the process ABORTED inside the cell API (rc ' + str(rc) + '): ' + (pm.group(0).replace('\n', ' ') if pm else ' '.join(tail[-3:]))[:300]
+    else: what = 'probe failed: ' + out[-600:]
+    ctx.violation('UnsafeSyncCell, item type ' + what[:500], f'## replay: .build/cargo/debug/cellprobe\n## case: {what}\n', no_input=(mm is None and not cases))
 
 def c09_zst(ctx, seqrun, stats, divs):
     run_cellprobe(ctx, stats)
